@@ -267,11 +267,14 @@ def run_smt(case):
                 text = f.read()
             if "(check-sat)" not in text:
                 text += "\n(check-sat)\n"
-            names = []
+            # names of the task unknowns as the library itself names them (read off the live objects)
+            names, vname = [], {}
             for t in spec["tasks"]:
-                names += [f"{t['name']}_start", f"{t['name']}_end"]
+                obj = b.tasks[t["name"]]
+                vname[t["name"]] = (str(obj._start), str(obj._end), str(obj._scheduled) if t.get("optional") else None)
+                names += [vname[t["name"]][0], vname[t["name"]][1]]
                 if t.get("optional"):
-                    names.append(f"{t['name']}_scheduled")
+                    names.append(vname[t["name"]][2])
             ext = rd.external_z3(text, names)
             acc.executions += 1
             acc.count(acc.outcomes, f"external:{ext['status']}|library:{ref['outcome']}")
@@ -293,12 +296,12 @@ def run_smt(case):
                 complete = True
                 for t in spec["tasks"]:
                     n = t["name"]
-                    if f"{n}_start" not in ext["values"]:
+                    vs, ve, vsch = vname[n]
+                    if vs not in ext["values"] or ve not in ext["values"]:
                         complete = False
                         break
-                    sch = ext["values"].get(f"{n}_scheduled", True) if t.get("optional") else True
-                    cand["tasks"][n] = {"scheduled": bool(sch), "start": ext["values"][f"{n}_start"],
-                                        "end": ext["values"][f"{n}_end"]}
+                    sch = ext["values"].get(vsch, True) if t.get("optional") else True
+                    cand["tasks"][n] = {"scheduled": bool(sch), "start": ext["values"][vs], "end": ext["values"][ve]}
                 if not complete:
                     acc.violation("C16.smt2.model_lacks_task_values", "missing", feats, {"values": ext["values"]})
                     continue
@@ -326,10 +329,11 @@ def run_smt(case):
                             t2 = f2.read()
                         pins_txt = ""
                         for tn, tsol in sol1.tasks.items():
-                            pins_txt += f"(assert (= {tn}_start {tsol.start if tsol.start >= 0 else '(- %d)' % -tsol.start}))\n"
-                            pins_txt += f"(assert (= {tn}_end {tsol.end if tsol.end >= 0 else '(- %d)' % -tsol.end}))\n"
+                            o2 = b2.tasks[tn]
+                            pins_txt += f"(assert (= {o2._start} {tsol.start if tsol.start >= 0 else '(- %d)' % -tsol.start}))\n"
+                            pins_txt += f"(assert (= {o2._end} {tsol.end if tsol.end >= 0 else '(- %d)' % -tsol.end}))\n"
                             if tsol.optional:
-                                pins_txt += f"(assert (= {tn}_scheduled {'true' if tsol.scheduled else 'false'}))\n"
+                                pins_txt += f"(assert (= {o2._scheduled} {'true' if tsol.scheduled else 'false'}))\n"
                         t2 = t2.replace("(check-sat)", pins_txt + "(check-sat)")
                         ext2 = rd.external_z3(t2)
                         acc.executions += 1
